@@ -85,7 +85,11 @@ class FrameAudit(Lemma):
 
 P = ("C03-", "C01-P3f", "C01-P2:the-receiver")
 # a scope object handed to another task extends the state of the task that *enters* it, never of the one that made it
-from .C02 import AsyncScope as _AsyncScope, SyncScope as _SyncScope      # noqa: E402
+from .C02 import AsyncScope as _AsyncScope, SyncScope as _SyncScope, StateBlock as _StateBlock      # noqa: E402
+
+# ... and a block restores, on every way out, exactly the state the *entering* task had before it ("plus whatever scopes it enters
+# itself, for its whole life")
+_c03 = lambda n: n.startswith("C01-P6") or "StateContext-variable-is-what-it-was" in n      # noqa: E731
 
 CONTRACTS = [FrameAudit(), variant(Run, "C03", P), variant(Spawn, "C03", P), variant(Lookup, "C03", P), variant(Updated, "C03", P),
-             variant(_AsyncScope, "C03", ("C01-P6",)), variant(_SyncScope, "C03", ("C01-P6",))]
+             variant(_AsyncScope, "C03", _c03), variant(_SyncScope, "C03", _c03), variant(_StateBlock, "C03", _c03)]
